@@ -267,7 +267,25 @@ def all_words(d):
 
 
 def in_k3(dicts):
-    return any(is_and(w) for d in dicts for w in all_words(d))
+    """Known finding K3, as narrowly as it can be told from the input: some top-level word of some name is `and` (any case)
+    AND, read by the word-level REFERENCE splitter (ref_split, the specification of C12), the last-name-first texts of the
+    persons joined by ` and ` do not split back into those texts one by one.  `And One` (-> `One, And`: the word ends the
+    field) or `{Aa and,}`-like cases where no separator arises are NOT in the class, so a change that breaks them is
+    reported (seeding round 9, C14-i).  When the reference cannot read the merged text (unbalanced braces), the word test
+    alone decides, as before."""
+    if not any(is_and(w) for d in dicts for w in all_words(d)):
+        return False
+    try:
+        merged = []
+        for d in dicts:
+            vl = " ".join(d["von"] + d["last"])
+            merged.append(", ".join(x for x in [vl, " ".join(d["jr"]), " ".join(d["first"])] if x))
+        text = " and ".join(merged)
+        if not balanced(text):
+            return True
+        return ref_split(text) != merged
+    except Exception:  # noqa: BLE001
+        return True
 
 
 # ------------------------------------------------------------------ token sequences
